@@ -22,6 +22,7 @@ func main() {
 	replay := flag.String("replay", "", "replay file")
 	verif := flag.String("verif", "/verif", "verification directory")
 	list := flag.Bool("list", false, "list units")
+	rununit := flag.String("rununit", "", "internal: run one unit in-process and print its result as JSON")
 	flag.Parse()
 	if *seed < 0 {
 		*seed = 1
@@ -60,6 +61,9 @@ func main() {
 			fmt.Println(u.Name)
 		}
 		return
+	}
+	if *rununit != "" {
+		os.Exit(core.RunUnitJSON(c, ctx, *rununit))
 	}
 	if *worker {
 		core.WorkerMain(c, ctx)
